@@ -39,7 +39,7 @@ CHECKS = {
     "C08": ("CrossHair/z3 symbolic execution of the real MetadorGroup wrapper methods (path guard on every protocol method, enumerated at run time), listing filters and meta-path algebra with structured symbolic reserved paths/names around a recording raw group",
             "trusted: CrossHair/z3 string theory; recording raw mocks; clause (d) (bookkeeping never disturbs user data) is outside (C06); bounds: free parts of paths <=2 chars, 2 symbolic children per listing, canonical paths <=5 chars",
             "4/C08"),
-    "C15": ("CrossHair/z3 symbolic execution of the real ACL code (MetadorNode/Group/Dataset, WrappedAttributeManager, MetadorMeta guards) with the three flags as symbolic booleans: one-step induction over 21 navigation primitives (parent/file applied to every derived node), 22 mutators, 14 readers, restrict() monotonicity",
+    "C15": ("CrossHair/z3 symbolic execution of the real ACL code (MetadorNode/Group/Dataset, WrappedAttributeManager, MetadorMeta guards) with the three flags as symbolic booleans: one-step induction over 22 navigation primitives (parent/file applied to every derived node), 22 mutators, 14 readers, restrict() monotonicity",
             "trusted: recording raw mocks instead of h5py nodes; induction argument (I1)+(I2)+(I3) for chains of any length; soft restrictions (private attributes) outside",
             "4/C15"),
     "C09": ("same (W) obligation as C01 with the plain substrate file as third party: every raw protocol operation succeeds/fails alike and leaves the same tree for any patch-boundary placement; protocol members enumerated from util/types.py",
